@@ -1219,10 +1219,26 @@ func (t *bodyTr) ifNode(n *ifNode, sc bscope, ctx bctx, ind string, rest func(bs
 		}
 		var b strings.Builder
 		b.WriteString(pre)
-		fmt.Fprintf(&b, "%slet %s := if %s then (\n", ind, tuple(vars), c.Lean)
-		b.WriteString(strings.TrimRight(t.seq(n.body, sc.push(), jctx, ind+"    "), "\n") + ")\n")
+		fmt.Fprintf(&b, "%slet %s := ", ind, tuple(vars))
+		// an else-if chain stays one flat `if … else if … else …` over the same variables
+		cur, cond := n, c.Lean
+		for {
+			fmt.Fprintf(&b, "if %s then (\n", cond)
+			b.WriteString(strings.TrimRight(t.seq(cur.body, sc.push(), jctx, ind+"    "), "\n") + ")\n")
+			next := t.elseIf(cur)
+			if next == nil {
+				break
+			}
+			cur = next
+			cv := t.expr(cur.cond, sc, "bool")
+			if cv.Ty != "bool" {
+				cv.Lean = t.unsupported("condition")
+			}
+			cond = cv.Lean
+			fmt.Fprintf(&b, "%s  else ", ind)
+		}
 		fmt.Fprintf(&b, "%s  else (\n", ind)
-		b.WriteString(strings.TrimRight(t.seq(n.els, sc.push(), jctx, ind+"    "), "\n") + ")\n")
+		b.WriteString(strings.TrimRight(t.seq(cur.els, sc.push(), jctx, ind+"    "), "\n") + ")\n")
 		return b.String() + rest(sc, ind)
 	}
 	// early exit possible: the continuation goes into both branches
@@ -1235,6 +1251,36 @@ func (t *bodyTr) ifNode(n *ifNode, sc bscope, ctx bctx, ind string, rest func(bs
 	fmt.Fprintf(&b, "%selse (\n", ind)
 	b.WriteString(strings.TrimRight(t.seq(n.els, sc.push(), inner, ind+"  "), "\n") + ")\n")
 	return b.String()
+}
+
+// elseIf: the node of `else if …` when the else part is exactly that (no init statement)
+func (t *bodyTr) elseIf(n *ifNode) *ifNode {
+	if len(n.els) != 1 {
+		return nil
+	}
+	switch e := n.els[0].(type) {
+	case *ast.BadStmt:
+		return t.synth[e]
+	case *ast.IfStmt:
+		if e.Init != nil {
+			return nil
+		}
+		m := &ifNode{cond: e.Cond, body: e.Body.List, src: e}
+		switch el := e.Else.(type) {
+		case nil:
+		case *ast.BlockStmt:
+			m.els = el.List
+			if m.els == nil {
+				m.els = []ast.Stmt{}
+			}
+		case *ast.IfStmt:
+			m.els = []ast.Stmt{el}
+		default:
+			m.els = []ast.Stmt{&ast.BadStmt{}}
+		}
+		return m
+	}
+	return nil
 }
 
 // switchToIf rewrites `switch tag { case a, b: …; default: … }` (no fallthrough, no break) as an
